@@ -23,7 +23,7 @@ Corr(c, y, j) == IF j > Len(y) THEN 0 ELSE (1 - 2 * c[j]) * y[j] + Corr(c, y, j 
 \* soft ML over the single-parity-check code of length n
 EvenWords(n) == { w \in Words(n) : Parity(w, 1..n) = 0 }
 MLScore(y) == LET S == { Corr(c, y, 1) : c \in EvenWords(Len(y)) } IN CHOOSE m \in S : \A s \in S : s <= m
-MLUnique(y) == Cardinality({ c \in EvenWords(Len(y)) : Corr(c, y, 1) = MLScore(y) }) = 1
+MLUnique(y) == LET m == MLScore(y) IN Cardinality({ c \in EvenWords(Len(y)) : Corr(c, y, 1) = m }) = 1
 
 \* exact posterior ratio of bit i: P(x_i = 0 | y) / P(x_i = 1 | y) = <<num, den>>, weights 2^a for the favoured value
 W(a, v) == IF v = 0 THEN (IF a >= 0 THEN 2 ^ a ELSE 1) ELSE (IF a >= 0 THEN 1 ELSE 2 ^ (-a))
